@@ -174,3 +174,11 @@ Qed.
 Corollary read_utc_notation_independent s : min_seconds <= s <= max_seconds ->
   read_utc (format_body s) = read_utc (format_seconds s) /\ read_utc (format_body s ++ [90]) = read_utc (format_seconds s).
 Proof. intros H. destruct (read_utc_notations s H) as (A & B & C). rewrite format_seconds_body, A, B, C. split; reflexivity. Qed.
+
+(* two different instants (to the second) are never written as the same timestamp text *)
+Theorem format_seconds_injective a b : min_seconds <= a <= max_seconds -> min_seconds <= b <= max_seconds ->
+  format_seconds a = format_seconds b -> a = b.
+Proof.
+  intros Ha Hb E. pose proof (parse_format_seconds a Ha) as Ra. pose proof (parse_format_seconds b Hb) as Rb.
+  rewrite E in Ra. rewrite Ra in Rb. congruence.
+Qed.
